@@ -525,6 +525,8 @@ impl<TokenIter: Iterator<Item = Result<Token>>> Parser<TokenIter> {
         datum: Datum,
         syntax_env: &Rc<LexicalScope<Transformer>>,
     ) -> Result<Statement> {
+        #[cfg(ruschm_verif)]
+        let _verif_guard = crate::verif_hooks::enter()?;
         let location = datum.location;
         Ok(match datum.data {
             DatumBody::Primitive(p) => ExpressionBody::Primitive(p).locate(location).into(),
